@@ -319,6 +319,20 @@ class Universe(object):
         Derived = type('Derived', (Base,), {'__namespace__': ns_p,
                     '_type_info': [('extra', Unicode)]})
         self.Base, self.Derived = Base, Derived
+        # two different classes that share one type name (different
+        # namespaces): anything keyed by name instead of class mixes them up
+        s_u2 = Spec('uni', lambda: Unicode, lambda r: _g_uni(r, 1, 6),
+                                                                lambda v: v)
+        s_u2.build()
+        self.item1 = ComplexSpec('Item', 'urn:verif:t1',
+                                 [('name', s_u2), ('qty', s_int)])
+        self.item2 = ComplexSpec('Item', 'urn:verif:t2',
+                                 [('qty', s_u2), ('name', s_int),
+                                  ('extra', s_u2)])
+        self.item1.build()
+        self.item2.build()
+        M['item1'] = Method('item1', [('i', self.item1)], s_uni)
+        M['item2'] = Method('item2', [('i', self.item2)], s_uni)
         M['pa'] = Method('pa', [('a', s_int)], None)
         M['poly'] = Method('poly', [('a', s_int)], None)
 
@@ -391,6 +405,18 @@ class Universe(object):
             ctl.hit('fn', 'strict')
             return _num(a) + (len(s) if isinstance(s, str) else 0)
 
+        def f_item1(ctx, i):
+            ctl.calls.append(('item1', 'enter'))
+            ctl.hit('fn', 'item1')
+            return u'1:%s:%s' % (getattr(i, 'name', None),
+                                 getattr(i, 'qty', None))
+
+        def f_item2(ctx, i):
+            ctl.calls.append(('item2', 'enter'))
+            ctl.hit('fn', 'item2')
+            return u'2:%s:%s:%s' % (getattr(i, 'qty', None),
+                          getattr(i, 'name', None), getattr(i, 'extra', None))
+
         def f_pa(ctx, a):
             ctl.calls.append(('pa', 'enter'))
             ctl.hit('fn', 'pa')
@@ -413,6 +439,8 @@ class Universe(object):
 
         ns = {}
         ns['strict'] = rpc(s_rng.cls, s_pat.cls, _returns=Integer)(f_strict)
+        ns['item1'] = rpc(self.item1.cls, _returns=Unicode)(f_item1)
+        ns['item2'] = rpc(self.item2.cls, _returns=Unicode)(f_item2)
         ns['pa'] = rpc(Integer, _returns=PA)(f_pa)
         ns['poly'] = rpc(Integer, _returns=Base)(f_poly)
         ns['prims'] = rpc(*[s.cls for _, s in flat_args], _returns=Unicode)(
